@@ -204,6 +204,17 @@ func VH_C18_cookie() {
 	c2 := vCtxFor(req2, nil, &vSpy{})
 	vx.Assert(c2.Cookie("k") == s, "C18: a cookie value written with SetCookie is read back byte for byte")
 	vx.Assert(c2.Cookie("absent") == "", "C18: an absent cookie yields \"\"")
+	if vx.Bool() {
+		// several cookies in one response, one name a prefix of another: each keeps its own header line
+		spyM := &vSpy{}
+		cM := vCtxFor(req, nil, spyM)
+		cM.SetCookie(http.Cookie{Name: "kid", Value: s})
+		cM.SetCookie(http.Cookie{Name: "k", Value: "v"})
+		cM.SetCookie(http.Cookie{Name: "ki", Value: "w"})
+		lines := spyM.Header()["Set-Cookie"]
+		vx.Assert(len(lines) == 3 && lines[0] == "kid="+url.QueryEscape(s) && lines[1] == "k=v" && lines[2] == "ki=w",
+			"C18: every SetCookie call adds its own header line; the cookies of one response do not disturb each other")
+	}
 
 	vx.Observe("cookie", s, set)
 }
